@@ -31,9 +31,31 @@ def spec_for(c):
         paths["/p1"] = {"get": {"operationId": "one", "responses": {"200": {"description": "ok", "schema": {"$ref": "#/definitions/" + urllib.parse.quote(esc(a))}}}}}
         paths["/p2"] = {"get": {"operationId": "two", "responses": {"200": {"description": "ok", "schema": {"$ref": "#/definitions/" + urllib.parse.quote(esc(b))}}}}}
         routes = ["/p1", "/p2"]
+    base_path = None
+    if pos == "shape":
+        op = lambda oid, params=(): {"operationId": oid, "parameters": [{"name": n, "in": "path", "required": True, "type": "string"} for n in params],
+                                     "responses": resp("base")}
+        table = {
+            "root": ({"/": {"get": op("getRoot")}, "/status": {"get": op("getStatus")}}, [("GET", "/"), ("GET", "/status")]),
+            "param_vs_static": ({"/things/{id}": {"get": op("getThing", ["id"])}, "/things/all": {"get": op("getAllThings")}},
+                                [("GET", "/things/7"), ("GET", "/things/all")]),
+            "prefix": ({"/a": {"get": op("getA")}, "/a/b": {"get": op("getAB")}, "/a/b/c": {"get": op("getABC")}},
+                       [("GET", "/a"), ("GET", "/a/b"), ("GET", "/a/b/c")]),
+            "methods": ({"/things": {"get": op("listThings"), "post": op("createThing"), "delete": op("dropThings")}},
+                        [("GET", "/things"), ("POST", "/things"), ("DELETE", "/things")]),
+            "basepath": ({"/things": {"get": op("listThings")}, "/things/{id}": {"get": op("getThing", ["id"])}},
+                         [("GET", "/v1/things"), ("GET", "/v1/things/7")]),
+            "root_and_param": ({"/": {"get": op("getRoot")}, "/{id}": {"get": op("getByID", ["id"])}}, [("GET", "/"), ("GET", "/7")]),
+        }
+        paths, routes = table[a]
+        if a == "basepath":
+            base_path = "/v1"
     doc = {"swagger": "2.0", "info": {"title": "verif names", "version": "1"}, "produces": ["application/json"],
            "consumes": ["application/json"], "paths": paths, "definitions": defs}
-    return doc, routes, len(paths), len(defs)
+    if base_path:
+        doc["basePath"] = base_path
+    routes = [r if isinstance(r, tuple) else ("GET", r) for r in routes]
+    return doc, routes, sum(len(v) for v in paths.values()), len(defs)
 
 
 def check(run, replay=None):
@@ -73,11 +95,11 @@ def check(run, replay=None):
         nh = -1
         resp = []
         if b.returncode == 0:
-            start, resp = run_driver(run, out, [dict(id=k, method="GET", path=r, rawQuery="", headers={}) for k, r in enumerate(routes)], tag)
+            start, resp = run_driver(run, out, [dict(id=k, method=m, path=r, rawQuery="", headers={}) for k, (m, r) in enumerate(routes)], tag)
             nh = len(start["handlers"])
         evs.append(dict(ev="Inspect", case=i, nHandlers=nh, nClientMethods=cnt["nClientMethods"], nModelTypes=cnt["nModelTypes"]))
         for k, r in enumerate(resp):
-            evs.append(dict(ev="Route", case=i, path=routes[k], reached=r["reached"], handler=r["handler"] or "none", status=r["status"]))
+            evs.append(dict(ev="Route", case=i, path=" ".join(routes[k]), reached=r["reached"], handler=r["handler"] or "none", status=r["status"]))
         shutil.rmtree(mod, ignore_errors=True)
         return evs
 
